@@ -54,9 +54,13 @@ ASSUMPTIONS = [
 REQUIRED = {"eval_events": 10000, "cond_crosschecks": 10000, "activations": 1500, "body_child_starts": 2000,
             "body_runs": 1000, "cancel_accepted": 100, "cancel_effective_checks": 50, "force_accepted": 100,
             "forced_activations": 80, "block_end_with_registered_interrupt": 300, "blockend_effective_checks": 200,
-            "alarm_rearm_checks": 300, "alarm_rerun_checks": 200, "watch_once_checks": 500}
+            "alarm_rearm_checks": 300, "alarm_rerun_checks": 200, "watch_once_checks": 500,
+            "force_then_false_alarm_root_checks": 60, "force_then_false_alarm_checks": 80,
+            "force_then_false_watch_checks": 20, "force_then_false_then_true_alarm_checks": 20,
+            "force_then_false_one_activation_per_force": 100}
 
 K_LIVE = 8
+FORCE_SHARE = 0.12     # share of cases of the force class (gen_force_case)
 LO_HI = [(0.0, 6.0), (2.0, 4.0), (0.0, 4.0), (2.0, 6.0)]
 
 # ----------------------------------------------------------------------------------------------------------------
@@ -276,7 +280,91 @@ def _pivots(text, traj, reqs, max_ticks, min_ticks):
             rig.close()
 
 
+FALSE_VALUES = {"FT01 > 3 L/h": (0.0, 2.0, 3.0), "FT01 >= 3 L/h": (0.0, 2.0), "FT01 < 3 L/h": (6.0, 4.0, 3.0),
+                "FT01 <= 3 L/h": (4.0, 6.0)}
+TRUE_VALUES = {"FT01 > 3 L/h": (4.0, 6.0), "FT01 >= 3 L/h": (3.0, 6.0), "FT01 < 3 L/h": (0.0, 2.0),
+               "FT01 <= 3 L/h": (3.0, 0.0)}
+FORCE_QUIET = 20        # ticks after an accepted force in which the condition stays false
+
+
+def gen_force_case(rnd: random.Random):
+    """Force class: ONE Watch/Alarm that is not nested in any Watch/Alarm/macro (at root level, or in one Block that
+    stays open), condition false when the force request arrives and for at least FORCE_QUIET (+ body length) ticks
+    after it. Variants: false for the rest of the run / true later (step or pulse) / true once before the force
+    (the Alarm has already completed a run by its condition) ; a second force or a cancel later in the run."""
+    L = ["Base: s"]
+    n = [0]
+
+    def lab():
+        n[0] += 1
+        return f"m{n[0]}"
+    for _ in range(rnd.randint(0, 2)):
+        L.append(f"Mark: {lab()}")
+    kind = rnd.choice(["Alarm", "Alarm", "Alarm", "Watch"])
+    cond = rnd.choice(FOCUS_CONDS)
+    in_block = rnd.random() < 0.25
+    ind = 0
+    if in_block:
+        L.append(f"Block: b{lab()}")
+        ind = 4
+    L.append(" " * ind + f"{kind}: {cond}")
+    cond_line = len(L) - 1
+    for i in range(rnd.randint(1, 3)):
+        c = rnd.choice(["mark", "mark", "mark", "wait", "uod", "thr"])
+        if c == "mark":
+            L.append(" " * (ind + 4) + f"Mark: {lab()}")
+        elif c == "wait":
+            L.append(" " * (ind + 4) + f"Wait: {rnd.choice(['0.2', '0.4', '0.1'])}s")
+        elif c == "uod":
+            L.append(" " * (ind + 4) + rnd.choice(["Short", "Long", "Set1: 3"]))
+        else:
+            L.append(" " * (ind + 4) + f"{rnd.choice(['0.3', '0'])} Mark: {lab()}")
+    if in_block:
+        # the block stays open for the whole observation window (the main path waits inside it)
+        L.append(" " * ind + f"Mark: {lab()}")
+        L.append(" " * ind + "Wait: 30s")
+        L.append(" " * ind + "End block")
+    for _ in range(rnd.randint(0, 3)):
+        L.append(rnd.choice([f"Mark: {lab()}", "Wait: 0.5s", "Short", "Wait: 1s"]))
+    text = "\n".join(L) + "\n"
+    fv = rnd.choice(FALSE_VALUES[cond])
+    tv = rnd.choice(TRUE_VALUES[cond])
+    p0 = _pivots(text, [fv] * 4, [], 40, 12)
+    line = f"L{cond_line}"
+    reg = p0["reg"].get(line, 4)
+    variant = rnd.choice(["stay_false", "stay_false", "true_later_step", "true_later_pulse", "true_before"])
+    tf = reg + rnd.randint(1, 8)                   # tick of the force request
+    traj_len = 200
+    traj = [fv] * traj_len
+    if variant == "true_before":
+        # a pulse of 1-3 ticks right after the registration: one run of the body by the condition; the force comes
+        # when the Alarm has been re-armed (a Watch is used up by then: its force request is rejected)
+        w = rnd.randint(1, 3)
+        at = reg + rnd.randint(0, 2)
+        for t in range(at, at + w):
+            traj[t - 2] = tv
+        tf = at + w + rnd.randint(8, 14)
+    quiet_to = tf + FORCE_QUIET + rnd.randint(6, 12)
+    if variant == "true_later_step":
+        for t in range(quiet_to, traj_len + 2):
+            traj[t - 2] = tv
+    elif variant == "true_later_pulse":
+        for t in range(quiet_to, quiet_to + rnd.randint(1, 10)):
+            traj[t - 2] = tv
+    reqs = [{"tick": tf, "kind": "force", "line": line, "rel": "reg"}]
+    x = rnd.random()
+    if x < 0.15:
+        reqs.append({"tick": tf + rnd.randint(6, 18), "kind": "force", "line": line, "rel": "reg"})
+    elif x < 0.25:
+        reqs.append({"tick": tf + rnd.randint(1, 18), "kind": "cancel", "line": line, "rel": "reg"})
+    ticks = quiet_to + 30
+    return {"text": text, "traj": traj[:ticks + 5], "traj_kind": "force_" + variant, "reqs": reqs, "ticks": ticks,
+            "focus": True, "cls": "force"}
+
+
 def gen_case(rnd: random.Random, max_depth: int = 3):
+    if rnd.random() < FORCE_SHARE:
+        return gen_force_case(rnd)
     focus = rnd.random() < 0.6
     text = gen_focus_program(rnd, max_depth) if focus else gen_random_program(rnd, max_depth)
     lo = rnd.choice([0.0, 2.0])
@@ -618,6 +706,41 @@ def check_case(case, res: Result):
                 f = fn.get(wp)
                 if f is not None and any(f(ft[t]) for t in range(tick + 1, running_to + 1) if t in ft):
                     res.count("blockend_effective_checks")
+
+        # ---- force class (non-vacuity counters; the deciding rule is the activation rule above): an accepted force
+        # on a Watch/Alarm outside any Watch/Alarm/macro whose condition is false in the force tick and stays false
+        # for FORCE_QUIET more ticks of the running method - the force accounts for one activation in that window
+        for w in conds:
+            s = S(id(w))
+            f = fn.get(id(w))
+            if f is None or not plain[id(w)]:
+                continue
+            kind = type(w).__name__[:-4].lower()
+            top = "root" if isinstance(w.parent, p.ProgramNode) else "block"
+            acts = act_events.get(id(w), [])
+            for F in s["forces"]:
+                if F + FORCE_QUIET > running_to or any(t not in ft or f(ft[t]) for t in range(F, F + FORCE_QUIET + 1)):
+                    continue
+                blocks = [id(b) for b in w.parents if isinstance(b, p.BlockNode)]
+                if any(e[1] == "block_ended" and e[5] is True and e[6] in blocks and e[0] <= F + FORCE_QUIET
+                       for e in trace):
+                    continue
+                if not any(F <= t <= F + 3 for t in s["forced_acts"]):
+                    res.count("force_then_false_no_forced_activation")      # e.g. cancelled / reset right after
+                    continue
+                others = [t for t in s["forces"] if F < t <= F + FORCE_QUIET]
+                res.count(f"force_then_false_{kind}_{top}_checks")
+                res.count(f"force_then_false_{kind}_checks")
+                if others:
+                    res.count("force_then_false_with_second_force")
+                n_act = sum(1 for t in acts if F <= t <= F + FORCE_QUIET)
+                if n_act == 1 + len(others):
+                    res.count("force_then_false_one_activation_per_force")
+                later_true = [t for t in range(F + FORCE_QUIET + 1, running_to - K_LIVE) if t in ft and f(ft[t])]
+                if later_true:
+                    res.count(f"force_then_false_then_true_{kind}_checks")
+                    if any(t >= later_true[0] for t in acts):
+                        res.count(f"force_then_false_then_true_{kind}_activated_again")
 
         # ---- Alarm is re-armed after each completed run (bounded liveness, K ticks)
         for tick, pid in rearm_events:
